@@ -43,7 +43,7 @@ def generate(mod, only=None):
         eng = make_engine(mod)
         eng.contracts = contracts
         try:
-            fn = extract.find_def(c.file, c.qualname)
+            fn = extract.find_def(c.file, c.source)
             body = extract.body_of(fn)
             if c.fragment:
                 body = c.fragment(body)
